@@ -161,6 +161,16 @@ func AcceptOrdinalSaleListing(ctx context.Context, vla *ValidateListingArgs, aso
 		return nil, err
 	}
 
+	// Change adds nothing when what is left does not cover the fee:
+	// refuse rather than return a transaction that underpays.
+	enough, err := tx.EstimateIsFeePaidEnough(asoa.FQ)
+	if err != nil {
+		return nil, err
+	}
+	if !enough {
+		return nil, bt.ErrInsufficientFunds
+	}
+
 	//nolint:dupl // TODO: are 2 dummies useful or to be removed?
 	for i, u := range asoa.UTXOs {
 		// skip 2nd input (ordinals input)
